@@ -539,6 +539,22 @@ func (fv *FV) applyModify(st *State, m *Expr, env *Env) {
 		fv.touch(st, hs, fmt.Sprintf("(sref %s)", s.T), "callee-HA")
 		fv.setHeap(st, hs, fmt.Sprintf("(store %s (sref %s) %s)", h, s.T, na))
 		return
+	case m.Op == "call" && m.Name == "HAif":
+		// HAif(cond, s): the array behind slice s, only when cond holds (callee contracts)
+		c := fv.evalBool(m.Args[0], env)
+		s := fv.evalSpec(m.Args[1], env)
+		es := "Int"
+		if s.Typ != nil {
+			if sl, ok := s.Typ.Underlying().(*types.Slice); ok {
+				es = fv.u.sortOf(sl.Elem(), fv.bv)
+			}
+		}
+		hs := "(Array Int " + es + ")"
+		h := fv.heap(st, hs)
+		na := fv.fresh("arr", hs)
+		fv.touchUnless(st, hs, fmt.Sprintf("(sref %s)", s.T), "callee-HA", "(not "+c+")")
+		fv.setHeap(st, hs, fmt.Sprintf("(ite %s (store %s (sref %s) %s) %s)", c, h, s.T, na, h))
+		return
 	case m.Op == "call" && m.Name == "obj":
 		fv.havocObject(st, fv.evalSpec(m.Args[0], env), env)
 		return
